@@ -2,12 +2,15 @@
 # tools/run_against_seed.sh <seed-id | patch file> <check ids...>
 # apply a seeded change to /repo, run the checks (TIER, default quick), undo; for a seed id the outcome is
 # merged into /verif/seeded/<id>/caught.json
+# the whole window in which /repo is modified runs under an exclusive lock that `check` takes (shared) for its build
+if [ -z "${SEEDLOCK:-}" ]; then SEEDLOCK=1 RCV_NOLOCK=1 exec flock /tmp/rcverif_repo.lock "$0" "$@"; fi
 A=$1; shift
 if [ -f "$A" ]; then P=$A; ID=""; else P=/verif/seeded/$A/patch.diff; ID=$A; fi
 cd /repo && git apply --check $P || { echo "patch does not apply"; exit 2; }
 git -C /repo apply $P
-# evidence written while /repo is modified must not survive: keep the committed files aside
-rm -rf /tmp/evidence_keep && cp -r /verif/evidence /tmp/evidence_keep
+# evidence written while /repo is modified must not survive: keep the files of the checks run here aside
+rm -rf /tmp/evidence_keep && mkdir -p /tmp/evidence_keep
+for c in "$@"; do cp /verif/evidence/$c.json /tmp/evidence_keep/ 2>/dev/null; done
 for c in "$@"; do
   cd /verif && timeout 1800 ./check $c ${TIER:-quick} > /tmp/seedrun_$c.log 2>&1; rc=$?
   sigs=$(grep 'violation \[' /tmp/seedrun_$c.log | sed 's/.*violation \[\([^]]*\)\].*/\1/' | sort | uniq -c | sort -rn | head -4 | awk '{print $2}' | tr '\n' ' ')
@@ -24,4 +27,4 @@ PY
   fi
 done
 git -C /repo checkout -- .
-rm -rf /verif/evidence && mv /tmp/evidence_keep /verif/evidence
+cp /tmp/evidence_keep/*.json /verif/evidence/ 2>/dev/null; rm -rf /tmp/evidence_keep
